@@ -222,8 +222,9 @@ def errorCEA (cfg : Settings) (ips : List Bytes) (req : Header) (osid : Option A
 /-- `handleDWR`'s answer -/
 def dwa (cfg : Settings) (req : Header) : Msg :=
   mkMsg (answerHdr req 0)
-    [newAVP C.resultCode 64 0 (.fix T.u32 2001),
-     newAVP C.originHost 64 0 (.str T.ident cfg.originHost), newAVP C.originRealm 64 0 (.str T.ident cfg.originRealm)]
+    ([newAVP C.resultCode 64 0 (.fix T.u32 2001),
+      newAVP C.originHost 64 0 (.str T.ident cfg.originHost), newAVP C.originRealm 64 0 (.str T.ident cfg.originRealm)]
+     ++ (if cfg.originStateId ≠ 0 then [newAVP C.originStateId 64 0 (.fix T.u32 cfg.originStateId)] else []))
 
 /-! ### the connection-level state machine (server side) -/
 
